@@ -114,7 +114,7 @@ func checkUpdateHook(c *Ctx, rule string, parts ...string) {
 					ok, d = false, "the hand state is stored only conditionally"
 				}
 				for _, ci := range Calls(f) {
-					if !Dominates(ss.Instr, ci) {
+					if !Dominates(ss.Instr, ci) && !isLogCall(ci) {
 						ok, d = false, "the hook acts ("+calleeName(ci.Common())+") before it has stored the new hand state"
 					}
 				}
